@@ -1073,7 +1073,22 @@ def cases_for(prop, tier, seed):
             ad = allowed_pair_adef(g)
             # make both sides readable registers more often: read_all_registers must visit each of them, address coinciding or not
             pairs.append(case(ad, pick_syntax(g, (4, 4, 1, 1)), "mixed"))
-        return CORPUS.get(prop, []) + prof_mixed(g, 340 * k, depth=3, neg=True, field_kw={"conv_p": 0.05}, block_ref_p=0.15, repeat_p=0.5) + prof_pow2(g, 60 * k) + pairs + prof_addrtype(g, 80 * k)
+        # (round 11, N01) readable registers repeated with a NEGATIVE stride, at the top level, inside a (repeated) block and as a
+        # ref with its own repeat: read_all_registers and its async twin must report, for every index, the address used on the bus
+        negrep = []
+        for ty, a0, cnt, st in (("i8", 64, 4, -2), ("u8", 200, 3, -100), ("i16", 3, 3, -3), ("u16", 1000, 5, -7), ("i32", 0, 2, -1), ("i64", 10, 4, -5)):
+            reg = {"kind": "register", "name": "Rep", "access": g.pick(["RW", "RO"]), "address": str(a0), "size_bits": 8, "fields": [],
+                   "repeat": {"count": str(cnt), "stride": str(st)}}
+            other = {"kind": "register", "name": "Plain", "address": str(a0 + 1 if st < -1 else a0 + 2), "size_bits": 8, "fields": []}
+            far = {"kind": "ref", "name": "Again", "target": "Plain", "override": {"kind": "register", "address": str(a0 + 40 if ty != "i8" else a0 - 40),
+                                                                                  "repeat": {"count": "3", "stride": "-1"}}}
+            cfgx = {"register_address_type": ty, "default_byte_order": "LE"}
+            negrep.append(case({"config": cfgx, "objects": [reg, other, far]}, pick_syntax(g, (4, 4, 1, 1)), "mixed"))
+            if ty in ("i16", "u16", "i64"):
+                negrep.append(case({"config": cfgx, "objects": [{"kind": "block", "name": "Bank", "address_offset": "20",
+                                                                 "repeat": {"count": "2", "stride": "50"}, "objects": [reg, other]}]},
+                                   pick_syntax(g, (4, 4, 1, 1)), "mixed"))
+        return CORPUS.get(prop, []) + prof_mixed(g, 340 * k, depth=3, neg=True, field_kw={"conv_p": 0.05}, block_ref_p=0.15, repeat_p=0.5) + prof_pow2(g, 60 * k) + pairs + prof_addrtype(g, 80 * k) + negrep
     return _cases_for_base2(prop, tier, seed)
 
 
